@@ -112,11 +112,11 @@ Lemma key_det_link_ix : forall p a b d mx p' a' b' d' mx',
   mkkey p a b d mx = mkkey p' a' b' d' mx' -> gab d mx p a b = gab d' mx' p' a' b'.
 Proof.
   intros p a b d mx p' a' b' d' mx' [HG Hm] [HG' Hm'] HE. unfold mkkey in HE.
-  assert (Hh : hash p = hash p') by exact (f_equal (fun k : skey => fst (fst (fst (fst k)))) HE).
-  assert (Ha : a = a') by exact (f_equal (fun k : skey => snd (fst (fst (fst k)))) HE).
-  assert (Hb : b = b') by exact (f_equal (fun k : skey => snd (fst (fst k))) HE).
-  assert (Hdd : d = d') by exact (f_equal (fun k : skey => snd (fst k)) HE).
-  assert (Hmx : mx = mx') by exact (f_equal (fun k : skey => snd k) HE).
+  assert (Hh : hash p = hash p') by exact (f_equal (fun k : skey => fst (fst (fst (fst (fst k))))) HE).
+  assert (Ha : a = a') by exact (f_equal (fun k : skey => snd (fst (fst (fst (fst k))))) HE).
+  assert (Hb : b = b') by exact (f_equal (fun k : skey => snd (fst (fst (fst k)))) HE).
+  assert (Hdd : d = d') by exact (f_equal (fun k : skey => snd (fst (fst k))) HE).
+  assert (Hmx : mx = mx') by exact (f_equal (fun k : skey => snd (fst k)) HE).
   subst a' b' d'. rewrite <- Hmx. rewrite <- Hmx in Hm'. clear Hmx.
   assert (Hpq : maximize (turn p) = maximize (turn p')) by (rewrite Hm, Hm'; reflexivity).
   pose proof (L_ab_link d p a b (maximize (turn p)) HG) as H1.
